@@ -76,6 +76,9 @@ def build_skeleton(sk):
         locals_decl.append(uleb(nloc) + bytes([I32]))
     body = bytearray()
     body += b"\x02\x40" + b"\x41\x00" + b"\x0e" + vec([uleb(0)] * sk["brLabels"]) + uleb(0) + b"\x0b"
+    if sk["nMems"] == 1:
+        # grow within and far beyond any declared maximum: the engine's memory buffer holds at most 512 pages
+        body += b"\x41\x01\x40\x00\x1a" + b"\x41\xd8\x04\x40\x00\x1a" + b"\x3f\x00\x1a"
     if float_use == "instr":
         body += b"\x43\x00\x00\x00\x00\x1a"
     if float_use == "blocktype":
